@@ -48,8 +48,11 @@ class Injected(Exception):
 
 
 class World:
-    def __init__(self, root, kind, form, rng, extra=""):
+    def __init__(self, root, kind, form, rng, extra="", shids=None):
         self.root = Path(root)
+        # the shanks of the 4-shank probe that carry the recorded channels (model shank i <-> probe shank shids[i]): a probe
+        # recorded on shanks {1, 3} has no shank 0 - folder names, <version>_shank and nshank all speak of probe shanks
+        self.shids = tuple(shids or range(NSH))
         self.kind = kind
         self.form = form
         self.extra = extra or ""     # init_params(extra=...): suffix of the shank folder names (NP2.4)
@@ -57,7 +60,7 @@ class World:
         k = {"NP24": "NP2.4", "NP21": "NP2.1", "NP1": "3B2", "split": "NP2.4"}[kind]
         n = 8
         if kind in ("NP24", "split"):
-            sites = [(c % NSH if kind == "NP24" else 0, c // 2, c % 2) for c in range(n)]
+            sites = [(self.shids[c % NSH] if kind == "NP24" else 0, c // 2, c % 2) for c in range(n)]
         else:
             sites = metagen.dense_sites(k, n=n)
         self.binf, self.d, self.info = n2.make_recording(self.root, NS, rng, kind=k, n=n, sites=sites)
@@ -148,7 +151,7 @@ class World:
 
     def paths(self, s, extra=None):
         if self.kind == "NP24":
-            f = self.raw / f"probe00{chr(97 + s)}{self.extra if extra is None else extra}"
+            f = self.raw / f"probe00{chr(97 + self.shids[s])}{self.extra if extra is None else extra}"
             return {"dir": f, "ap": f / f"{STEM}.ap.bin", "apc": f / f"{STEM}.ap.cbin", "apm": f / f"{STEM}.ap.meta",
                     "lf": f / f"{STEM}.lf.bin", "lfc": f / f"{STEM}.lf.cbin", "lfm": f / f"{STEM}.lf.meta"}
         f = self.folder
@@ -167,7 +170,7 @@ class World:
             p = self.paths(s, extra="_old" if found == "otherextra" else None)
             if self.kind == "NP24":
                 p["dir"].mkdir(parents=True, exist_ok=True)
-                chns = np.r_[np.flatnonzero(self.shank_of == s), nap]
+                chns = np.r_[np.flatnonzero(self.shank_of == self.shids[s]), nap]
             else:
                 chns = np.arange(nap + 1)
             if found == "dirs":
@@ -217,7 +220,7 @@ class World:
                     fs[f"{p}{s}"] = "A"
                 continue
             p = self.paths(s)
-            chns = np.r_[np.flatnonzero(self.shank_of == s), nap] if self.kind == "NP24" else np.arange(nap + 1)
+            chns = np.r_[np.flatnonzero(self.shank_of == self.shids[s]), nap] if self.kind == "NP24" else np.arange(nap + 1)
             want_ap = self.d[:, chns].reshape(-1)
             part_ap = self.d[:PART, chns].reshape(-1)
             nlf = -(-NS // n2.RATIO)
@@ -251,6 +254,8 @@ class World:
                         import spikeglx
                         md = spikeglx.read_meta_data(f)
                         ok = int(md["nSavedChans"]) == len(chns) and (key == "apm" or md["imSampRate"] == 2500)
+                        if self.kind == "NP24":     # a valid shank file says which shank of the probe it holds
+                            ok = ok and int(md.get("NP2.4_shank", -1)) == self.shids[s]
                     except Exception:
                         ok = False
                     fs[f"{key}{s}"] = "C" if ok else "P"
@@ -437,7 +442,7 @@ def init_params(world, conv, o):
     if world.extra:
         kw["extra"] = world.extra
     if o.get("sub"):
-        kw["nshank"] = [0]
+        kw["nshank"] = [world.shids[0]]
     conv.init_params(**kw)
 
 
@@ -751,6 +756,17 @@ def plan_found(ctx):
             if not q:
                 out.append(("NP24", form, [(sub(o), anyfa()), (sub(ow(o)), None, True)], {}))
                 out.append(("NP24", form, [(sub(o), None), (ow(o2), None, "early")], {}))
+    # (g) a 4-shank probe recorded on shanks other than 0..n-1 (seed round g: shank files labelled by position, not by shank):
+    # first runs, forced re-runs, one shank only, interruptions - the same model, the probe's own shank numbers on disk
+    for shids in (((1, 3),) if q else ((1, 3), (2, 3), (0, 2), (1, 2))):
+        su = {"shids": list(shids)}
+        for form in (("bin",) if q else ("bin", "cbin")):
+            for o in (rnd.sample(keyv, 1) + rnd.sample(opts, 2) if q else keyv + rnd.sample(opts, 6)):
+                out.append(("NP24", form, [(o, None)], su))
+                out.append(("NP24", form, [(o, anyfa()), (ow(rnd.choice(opts)), None)], su))
+                out.append(("NP24", form, [(sub(o), None), (ow(rnd.choice(opts)), None)], su))
+            if not q:
+                out.append(("NP24", form, [(rnd.choice(keyv), "ALL")], su))
     return out
 
 
@@ -762,9 +778,11 @@ def execute(ctx, items):
         kind, form, runs = item[:3]
         setup = dict(item[3]) if len(item) > 3 and item[3] else {}
         extra = setup.get("extra", "")
-        key = (kind, form, extra)
+        shids = tuple(setup.get("shids") or range(NSH))
+        key = (kind, form, extra, shids)
         if key not in worlds:
-            worlds[key] = World(Path(ctx.scratch) / f"c04_{kind}_{form}{extra}", kind, form, rng, extra=extra)
+            worlds[key] = World(Path(ctx.scratch) / f"c04_{kind}_{form}{extra}_{''.join(map(str, shids))}", kind, form, rng, extra=extra,
+                                shids=shids)
             worlds[key].check_meta = True
         w = worlds[key]
         if any(r[1] == "ALL" for r in runs):
